@@ -175,10 +175,16 @@ impl Manifest {
             serde_json::to_writer(&mut json, entry)?;
         }
         serde_json::to_writer(&mut json, &ManifestOperation::End)?;
+        #[cfg(risinglight_verif)]
+        crate::verif::crash_point("manifest.append.before", "", &json);
         file.write_all(&json).await?;
+        #[cfg(risinglight_verif)]
+        crate::verif::crash_point("manifest.append.written", "", &[]);
         if self.enable_fsync {
             file.sync_data().await?;
         }
+        #[cfg(risinglight_verif)]
+        crate::verif::crash_point("manifest.append.synced", "", &[]);
         Ok(())
     }
 }
@@ -247,6 +253,9 @@ impl SecondaryStorage {
             .commit_changes(vec![EpochOp::CreateTable(entry.clone())])
             .await?;
 
+        #[cfg(risinglight_verif)]
+        crate::verif::yield_point("ddl.create.logged", &[]).await;
+
         // then apply to catalog
         self.apply_create_table(&entry)?;
 
@@ -285,6 +294,9 @@ impl SecondaryStorage {
 
         changeset.push(EpochOp::DropTable(entry));
 
+        #[cfg(risinglight_verif)]
+        crate::verif::yield_point("ddl.drop.applied", &[("table", table_id.table_id as i64)]).await;
+
         let pin_version = self.version.pin();
 
         if let Some(rowsets) = pin_version.snapshot.get_rowsets_of(table_id.table_id) {
@@ -308,6 +320,9 @@ impl SecondaryStorage {
                 }
             }
         }
+
+        #[cfg(risinglight_verif)]
+        crate::verif::yield_point("ddl.drop.pinned", &[("table", table_id.table_id as i64)]).await;
 
         // and then persist to manifest
         self.version.commit_changes(changeset).await?;
